@@ -29,7 +29,7 @@ package schnorr
 //@   ensures [C10.prover-formulas] result1 == nil ==> exists a :: (0 < a && a < curveN(X.curve) && px(result0.Alpha) == ecbasex(X.curve, a) && py(result0.Alpha) == ecbasey(X.curve, a) && val(result0.T) == (a + chalZK(Session, X.curve, px(X), py(X), px(result0.Alpha), py(result0.Alpha)) * old(val(x))) % curveN(X.curve))
 
 //@ func (*ZKProof).Verify
-//@   props C06 C11 C12 C05
+//@   props C06 C11 C12 C05 C10
 //@   requires validPoint(X) && okCurve(X.curve) && len(Session) <= 1048576
 //@   requires pf != nil ==> ((pf.Alpha != nil ==> validPoint(pf.Alpha)) && (pf.T != nil ==> val(pf.T) >= 0))
 //@   ensures result ==> (pf != nil && pf.T != nil && pf.Alpha != nil)
@@ -47,7 +47,7 @@ package schnorr
 //@   ensures [C10.prover-formulas] result1 == nil ==> exists a, b :: (0 < a && a < curveN(V.curve) && 0 < b && b < curveN(V.curve) && px(result0.Alpha) == ecaddx(V.curve, ecmulx(V.curve, old(px(R)), old(py(R)), a), ecmuly(V.curve, old(px(R)), old(py(R)), a), ecbasex(V.curve, b), ecbasey(V.curve, b)) && py(result0.Alpha) == ecaddy(V.curve, ecmulx(V.curve, old(px(R)), old(py(R)), a), ecmuly(V.curve, old(px(R)), old(py(R)), a), ecbasex(V.curve, b), ecbasey(V.curve, b)) && val(result0.T) == (a + chalZKV(Session, V.curve, old(px(V)), old(py(V)), old(px(R)), old(py(R)), px(result0.Alpha), py(result0.Alpha)) * old(val(s))) % curveN(V.curve) && val(result0.U) == (b + chalZKV(Session, V.curve, old(px(V)), old(py(V)), old(px(R)), old(py(R)), px(result0.Alpha), py(result0.Alpha)) * old(val(l))) % curveN(V.curve))
 
 //@ func (*ZKVProof).Verify
-//@   props C06 C11 C12 C05
+//@   props C06 C11 C12 C05 C10
 //@   requires validPoint(V) && okCurve(V.curve) && validPoint(R) && R.curve == V.curve && len(Session) <= 1048576
 //@   requires pf != nil ==> ((pf.Alpha != nil ==> (pf.Alpha.curve != nil && wfPoint(pf.Alpha))) && (pf.T != nil ==> val(pf.T) >= 0) && (pf.U != nil ==> val(pf.U) >= 0))
 //@   ensures result ==> (pf != nil && pf.T != nil && pf.U != nil && validPoint(pf.Alpha))
